@@ -530,7 +530,10 @@ def _print_diff_str(diff: str) -> None:
     if sys.stdout.isatty():
         click.echo(colored_diff)
     else:
-        click.echo(diff)
+        # color=True: print the text as it is. Without it, click strips
+        # escape sequences (that are part of the files content) from
+        # the output and the diff could not be applied.
+        click.echo(diff, color=True)
 
 
 def _print_diff(cfg: config.Config, new_version: str) -> None:
